@@ -152,6 +152,8 @@ type runner struct {
 	// wallet lock state as the harness commanded it (wlock / wunlock / wexpire), independent of the wallet's own flag
 	wLocked   bool
 	lockTimer chan time.Time // the armed unlock timeout, nil if none
+
+	lastRefused *refusedSend // walletview.go
 }
 
 func (r *runner) Close() {
@@ -467,6 +469,9 @@ func (r *runner) Exec(op string) (string, string) {
 		dbg("   wallet syncedTo=%d ledger wHeight=%d tip=%d pending=%d", r.w.Manager.SyncedTo().Height, r.wHeight, r.fc.tip(), r.pending)
 	}
 	kind, kv := core.KV(op)
+	if kind != "state" && kind != "create" {
+		r.lastRefused = nil
+	}
 	if kind == "reset" {
 		if err := r.reset(); err != nil {
 			return "harness-error " + err.Error(), ""
@@ -980,8 +985,17 @@ func (r *runner) opCreate(kv map[string]string) (string, string) {
 	}
 
 	var before snapshot
+	var viewBefore walletView
+	prevRefused := r.lastRefused
+	if q.api == "psbt" {
+		r.lastRefused = nil
+	}
 	if q.api == "send" {
+		r.lastRefused = nil
 		if before, err = r.snap(); err != nil {
+			return "harness-error " + err.Error(), ""
+		}
+		if viewBefore, err = r.walletView(); err != nil {
 			return "harness-error " + err.Error(), ""
 		}
 	}
@@ -1060,9 +1074,37 @@ func (r *runner) opCreate(kv map[string]string) (string, string) {
 				}
 				viols = append(viols, fmt.Sprintf("C20 key=%s: failed send changed the wallet: before {%s} after {%s}", key, before, after))
 			}
+			if !backendHasIt {
+				// C20 at wallet level (seed C20-6): what the USER sees as spendable (ListUnspent, lock table, balances)
+				// must be what it was before the refused attempt
+				viewAfter, verr := r.walletView()
+				if verr != nil {
+					return "harness-error " + verr.Error(), ""
+				}
+				what := "send " + q.name
+				if q.notify == "fail" {
+					what += " (NotifyReceived failed)"
+				} else {
+					what += " (backend: " + intendedClass(q.ans) + ")"
+				}
+				viols = append(viols, r.refusedViewViolations("sendOutputs", what, viewBefore, viewAfter, q)...)
+				rs := &refusedSend{sig: q.sig(), name: q.name}
+				if len(calls) > 0 {
+					rs.ins = []string{}
+					for _, in := range calls[len(calls)-1].tx.TxIn {
+						rs.ins = append(rs.ins, r.coinName(in.PreviousOutPoint))
+					}
+					sort.Strings(rs.ins)
+				}
+				r.lastRefused = rs
+			}
 			return "err=" + cls + sentField, strings.Join(viols, "; ")
 		}
 		if cls == "insufficient" {
+			if q.api == "send" && prevRefused != nil && prevRefused.sig == q.sig() && q.strat == "largest" {
+				viols = append(viols, fmt.Sprintf("C20 key=sendOutputs.retry-insufficient-funds: send %s was refused after a transaction had been created; nothing happened since, yet the same request (%s) now fails with insufficient funds (the refused transaction spent %v)",
+					prevRefused.name, q.name, prevRefused.ins))
+			}
 			// C07 (wallet level): insufficient funds only if the eligible coins cannot cover outputs + required fee
 			if v := r.coveredAlthoughInsufficient(q, outs, chgKind); v != "" {
 				viols = append(viols, v)
@@ -1151,6 +1193,14 @@ func (r *runner) opCreate(kv map[string]string) (string, string) {
 
 	if q.api == "psbt" {
 		sort.Strings(insNames) // FundPsbt sorts the packet in place (BIP69); compare the set
+	}
+	if q.api == "send" && prevRefused != nil && prevRefused.sig == q.sig() && q.strat == "largest" && prevRefused.ins != nil {
+		got := append([]string{}, insNames...)
+		sort.Strings(got)
+		if strings.Join(got, ",") != strings.Join(prevRefused.ins, ",") {
+			viols = append(viols, fmt.Sprintf("C20 key=sendOutputs.retry-selects-other-coins: send %s (inputs %v) was refused; nothing happened since, yet the same request (%s) now spends %v: the coins of the refused transaction are not spendable as before",
+				prevRefused.name, prevRefused.ins, q.name, got))
+		}
 	}
 	reply := "ok ins=" + strings.Join(insNames, ",") + " change=" + change
 	if q.strat == "random" && len(q.sel) == 0 {
